@@ -87,10 +87,10 @@ func c13Scenarios() []c13Scenario {
 	return []c13Scenario{
 		{"plain-reads", false, []hx.Req{P("OPEN_FILE", "/plain.bin"), R("READ_FILE", 70000, 0), R("READ_CRIT", 66000, 1000), R("READ_FILE", 100, 149990),
 			P("OPEN_FILE", "/small.txt"), R("READ_FILE", 100, 0), P("OPEN_FILE", "/zero"), R("READ_FILE", 10, 0), P("STAT", "/plain.bin"), P("OPEN_FILE", "/CLOSEFILE")}},
-		{"dvd-image", false, []hx.Req{P("OPEN_FILE", "/***DVD***/GAME"), R("READ_CRIT", 4096, 0), R("READ_FILE", 2048, 16 * 2048), R("READ_CRIT", 90000, 28 * 2048), R("READ_FILE", 70000, 40 * 2048),
+		{"dvd-image", false, []hx.Req{P("OPEN_FILE", "/***DVD***/GAME"), R("READ_CRIT", 4096, 0), R("READ_FILE", 2048, 16*2048), R("READ_CRIT", 90000, 28*2048), R("READ_FILE", 70000, 40*2048),
 			P("OPEN_FILE", "/***DVD***/GAME"), R("READ_FILE", 131072, 0), P("OPEN_FILE", "/small.txt")}},
-		{"ps3-image", false, []hx.Req{P("OPEN_FILE", "/***PS3***/PS3GAME"), R("READ_CRIT", 4096, 0), R("READ_FILE", 65536, 30 * 2048), P("OPEN_FILE", "/***PS3***/GAME"), P("OPEN_FILE", "/CLOSEFILE")}},
-		{"encrypted-adjacent-key", false, []hx.Req{P("OPEN_FILE", "/PS3ISO/g.iso"), R("READ_FILE", 16384, 0), R("READ_CRIT", 3000, 5000), R("READ_FILE", 100, 6143), P("OPEN_FILE", "/PS3ISO/g.iso"), R("READ_CRIT", 2048, 3 * 2048)}},
+		{"ps3-image", false, []hx.Req{P("OPEN_FILE", "/***PS3***/PS3GAME"), R("READ_CRIT", 4096, 0), R("READ_FILE", 65536, 30*2048), P("OPEN_FILE", "/***PS3***/GAME"), P("OPEN_FILE", "/CLOSEFILE")}},
+		{"encrypted-adjacent-key", false, []hx.Req{P("OPEN_FILE", "/PS3ISO/g.iso"), R("READ_FILE", 16384, 0), R("READ_CRIT", 3000, 5000), R("READ_FILE", 100, 6143), P("OPEN_FILE", "/PS3ISO/g.iso"), R("READ_CRIT", 2048, 3*2048)}},
 		{"encrypted-redkey", false, []hx.Req{P("OPEN_FILE", "/PS3ISO/r.iso"), R("READ_FILE", 16384, 0), R("READ_CRIT", 4097, 6000), P("STAT", "/PS3ISO/r.iso")}},
 		{"3k3y", false, []hx.Req{P("OPEN_FILE", "/k3y.iso"), R("READ_FILE", 16384, 0), R("READ_CRIT", 300, 0xF60), R("READ_FILE", 5000, 0x1000)}},
 		{"listing", false, []hx.Req{P("OPEN_DIR", "/list"), {Op: "READ_ENTRY"}, {Op: "READ_ENTRY2"}, {Op: "READ_ENTRY"}, {Op: "READ_ENTRY2"}, {Op: "READ_ENTRY"}, {Op: "READ_ENTRY"}, {Op: "READ_ENTRY"},
@@ -98,7 +98,7 @@ func c13Scenarios() []c13Scenario {
 			P("STAT", "/list/ld"), P("DIR_SIZE", "/list"), P("DIR_SIZE", "/GAME"), P("OPEN_DIR", "/empty"), {Op: "READ_ENTRY"}}},
 		{"uploads", true, []hx.Req{P("CREATE", "/up/new.bin"), {Op: "WRITE", N: 70000, Seed: 9}, {Op: "WRITE", N: 100, Seed: 10}, P("CREATE", "/up/second.bin"), {Op: "WRITE", N: 10, Seed: 11},
 			P("CREATE", "/small.txt"), P("MKDIR", "/up/dir"), P("DELETE", "/up/new.bin"), P("RMDIR", "/up/dir"), P("CREATE", "/up"), P("OPEN_FILE", "/up/second.bin"), R("READ_FILE", 100, 0)}},
-		{"mixed-state", true, []hx.Req{P("OPEN_DIR", "/list"), {Op: "READ_ENTRY"}, P("OPEN_FILE", "/***DVD***/GAME"), R("READ_CRIT", 5000, 28 * 2048), P("CREATE", "/up/x.bin"), {Op: "WRITE", N: 5000, Seed: 12},
+		{"mixed-state", true, []hx.Req{P("OPEN_DIR", "/list"), {Op: "READ_ENTRY"}, P("OPEN_FILE", "/***DVD***/GAME"), R("READ_CRIT", 5000, 28*2048), P("CREATE", "/up/x.bin"), {Op: "WRITE", N: 5000, Seed: 12},
 			{Op: "READ_ENTRY2"}, R("READ_FILE", 100, 0)}},
 	}
 }
@@ -107,10 +107,10 @@ type c13Case struct {
 	Scenario string `json:"scenario"`
 	// Mode: baseline | fail-op | short-read | ending | pair
 	Mode   string `json:"mode"`
-	K      int    `json:"k"`       // op / read index, or prefix length for endings
-	K2     int    `json:"k2"`      // second fault (pair) ; -1 none
-	Errno  int    `json:"errno"`   // injected error
-	Ending string `json:"ending"`  // halfclose | close | rst | truncated | unknown | timeout
+	K      int    `json:"k"`      // op / read index, or prefix length for endings
+	K2     int    `json:"k2"`     // second fault (pair) ; -1 none
+	Errno  int    `json:"errno"`  // injected error
+	Ending string `json:"ending"` // halfclose | close | rst | truncated | unknown | timeout
 	// generated scenario (thorough): requests carried in the case
 	Reqs       []hx.Req `json:"reqs,omitempty"`
 	AllowWrite bool     `json:"allow_write,omitempty"`
